@@ -1,5 +1,5 @@
 SPEC = {
-    "lean_modules": ["AM.Props.C06"],
+    "lean_modules": ["AM.Props.C06", "AM.Props.C06Sched"],
     "theorems": [
         "AM.Route.group_labels_spec", "AM.Route.same_group_iff", "AM.Route.group_key_pure", "AM.Route.route_key_spec",
         "AM.Route.child_key_spec", "AM.Route.ginv_ingestRoute", "AM.Route.ingestRoute_lands",
@@ -7,9 +7,18 @@ SPEC = {
         "AM.GroupMap.inv_init", "AM.GroupMap.inv_step", "AM.GroupMap.inv_run", "AM.GroupMap.reachable_inv",
         "AM.GroupMap.cas_replaces_only_destroyed", "AM.GroupMap.maintenance_deletes_only_destroyed",
         "AM.GroupMap.no_orphan_live_group", "AM.GroupMap.insert_lands", "AM.GroupMap.loss_only_by_giveup_or_limit",
+        # schedule replay (engine groupsched): the blocks between yield points are runs of the micro-step model
+        "AM.GroupMap.run_append", "AM.GroupMap.macroStep_is_run", "AM.GroupMap.replay_stays_reachable", "AM.GroupMap.replay_inv",
+        "AM.GroupMap.vStep_default",
+        # the mistakes the replay is there to catch, decided on the model (unchanged code next to each variant)
+        "AM.GroupMap.maintVsRecreate_ok", "AM.GroupMap.delete_by_key_orphans_live_group",
+        "AM.GroupMap.casRace_ok", "AM.GroupMap.store_for_cas_orphans_live_group",
+        "AM.GroupMap.losRace_ok", "AM.GroupMap.store_for_loadOrStore_orphans_live_group",
+        "AM.GroupMap.flushVsInsert_ok", "AM.GroupMap.insert_into_destroyed_is_lost",
     ],
     "engines": [
         {"name": "group", "pkg": "./group", "search_cases": 8000, "timeout_quick": 600},
+        {"name": "groupsched", "pkg": "./groupsched", "search_cases": 6000, "timeout_quick": 240},
     ],
     "rule": "random routing trees (<= 7 nodes, depth <= 3; group_by lists / [] / '...' / inherited; continue) through the real "
             "config.Load -> dispatch.NewRoute, a real dispatch.Dispatcher (8 ingestion workers) fed through a real mem.Alerts under "
@@ -17,13 +26,32 @@ SPEC = {
             "time advances over several group_interval rounds; maintenance interval 7 s / 15 s / 10 min so that re-creation hits both the "
             "CompareAndSwap path (destroyed group still mapped) and the LoadOrStore path; observed after every op: all notifications "
             "(time, group key, receiver, group labels, alert list with resolved flags) and Dispatcher.Groups(); non-trivial = tagged branch "
-            "(group-created, immediate-flush, group-destroyed, put-after-destroy, multi-route, several-alerts, resolved-sent)",
+            "(group-created, immediate-flush, group-destroyed, put-after-destroy, multi-route, several-alerts, resolved-sent); "
+            "engine groupsched (schedule replay): one route, one group key; the goroutines of a real Dispatcher (4 ingestion workers fed by "
+            "mem.Alerts.Put, the maintenance goroutine, every group's flush) are serialised through dispatch.VerifYield "
+            "(worker:received, groupAlert:loaded / beforeCAS / beforeLoadOrStore, doMaintenance:beforeCompareAndDelete; goroutines "
+            "identified by goroutine id, labelled by the alert just published) and through the notification stage (a flush parks between "
+            "List and DeleteIfNotModified); virtual time advances one second at a time until a flush or maintenance parks; 9 directed "
+            "schedules (maintenance vs re-creation through CompareAndSwap and through LoadOrStore, two/three creators racing through "
+            "LoadOrStore and through CompareAndSwap, worker vs flush-destroy both ways) + random schedules over the alphabet of "
+            "AM.GroupMap.Act (begin / step of 3 threads, flush begin / end, maintenance to its yield point / its CompareAndDelete; 10-50 "
+            "ops, 2-6 fresh alerts, 30-80 % of them already resolved); every op is replayed on AM.Model.GroupMap as a block of micro-steps "
+            "(macroStep, maintToYield: AM.GroupMap.replay_stays_reachable) and compared (yield point reached, Groups() content, which "
+            "incarnation flushes); spec predicates on the implementation's output after every op and after quiescence + one more "
+            "group_interval: every firing alert whose groupAlert returned is shown by Groups() exactly once, one group per key, every "
+            "notification lists only alerts Groups() shows, one notifying incarnation per key and interval, every firing alert notified",
     "assumptions": [
         "sync.Map is linearizable and store.Alerts' mutex gives atomic critical sections (the granularity of AM.Model.GroupMap's micro-steps); Go memory model not modelled",
         "label-set fingerprints are injective (the map key is the canonical group-label list)",
         "the 100-retry give-up and the aggregation-group limit are explicit outcomes of the model; insert_lands excludes them",
         "the window between CompareAndDelete and marker.DeleteByGroupKey (acknowledged TODO in doMaintenance) concerns the muted marker only and is not modelled",
         "engine: what the provider stored for a Put (overlap merging, C13) is read back and fed to the model; regexes in generated trees stay in the executable fragment of Driver.Group.reFrag",
-        "the interleaved model is tied by deterministic timelines that drive both creation paths; a schedule-replay engine needs the proposed hook fixes/hook-dispatch-yield.diff",
+        "groupsched realises the schedules of AM.Model.GroupMap in which a thread's micro-steps between two yield points are adjacent; "
+        "not realisable through the five yield points (no hook there): a step between LoadOrStore returning an existing group and "
+        "agExisting.insert (model pc insExisting), a stale Range entry / a step between destroyed(), ag.stop() and the yield point in "
+        "doMaintenance (model mPick of an unmapped group, mpc check/stop), and a step between a refused insert and the group-limit "
+        "read (model pc create; thread-local when no limit is set, as in the engine); those interleavings are covered by the theorems only",
+        "groupsched identifies a goroutine by the id parsed from runtime.Stack; one group key per case (the slots of the sync.Map are "
+        "independent; the shared group counter only matters with a limit, which the engine does not set)",
     ],
 }
